@@ -488,8 +488,8 @@ def setup(ssa_json, opts):
     global PROG, BASE_STORE
     from . import stubs  # noqa: registers stubs
     PROG = core.Program(ssa_json)
-    install_intrinsics(PROG)
     stubs.install(PROG)
+    install_intrinsics(PROG)
     ctx, errs = run_inits(PROG, opts)
     BASE_STORE = {'store': ctx.store, 'ncell': ctx.ncell, 'ghost': ctx.ghost}
     return PROG, errs
